@@ -56,25 +56,35 @@ pub open spec fn token_deltas_spec(cur_tick: int, p: int, lower: int, upper: int
         r matches Ok(ab) ==> liquidity_delta != 0 && token_deltas_spec(current_tick_index as int, sqrt_price as int, position.tick_lower_index as int, position.tick_upper_index as int, liquidity_delta as int, ab.0 as int, ab.1 as int),
 //@ end
 
-pub open spec fn reward_inside_k(w: Whirlpool, tl: Tick, tu: Tick, li: int, ui: int, ri: [WhirlpoolRewardInfo; 3], k: int) -> u128 {
-    if ri[k].is_init() {
-        growth_inside(w.tick_current_index as int, tl.initialized, tl.reward_growths_outside[k], li, tu.initialized, tu.reward_growths_outside[k], ui, ri[k].growth_global_x64)
+pub open spec fn reward_inside_k(w: Whirlpool, tl: Tick, tu: Tick, li: int, ui: int, ts: int, k: int) -> u128 {
+    if w.reward_infos[k].is_init() {
+        growth_inside(w.tick_current_index as int, tl.initialized, tl.reward_growths_outside[k], li, tu.initialized, tu.reward_growths_outside[k], ui, next_growth(w, ts, k))
     } else { 0u128 }
 }
-/// everything a liquidity change computes, as the conjunction of the per-component specs (C05, C07, C11)
-pub open spec fn modify_liquidity_spec(w: Whirlpool, p: Position, tl: Tick, tu: Tick, li: int, ui: int, var_l: bool, var_u: bool, delta: int, ts: int, u: ModifyLiquidityUpdate) -> bool {
+/// Everything a liquidity change computes, as the conjunction of the per-component specs (C05, C07, C11), over the abstract
+/// account values. The Anchor (_calculate_modify_liquidity) and the Pinocchio (_pino_calculate_modify_liquidity) implementation both prove exactly this predicate (C12).
+pub open spec fn modify_liquidity_core(w: Whirlpool, p: Position, tl: Tick, tu: Tick, li: int, ui: int, var_l: bool, var_u: bool, delta: int, ts: int,
+        whirlpool_liquidity: u128, tick_lower_update: TickUpdate, tick_upper_update: TickUpdate, growth: spec_fn(int) -> u128,
+        position_update: PositionUpdate, tick_array_lower_update: TickArrayUpdate, tick_array_upper_update: TickArrayUpdate) -> bool {
     &&& !(delta == 0 && p.liquidity == 0)
-    &&& reward_infos_spec(w, ts, Ok(u.reward_infos))
-    &&& u.whirlpool_liquidity as int == (if p.tick_lower_index <= w.tick_current_index < p.tick_upper_index { w.liquidity as int + delta } else { w.liquidity as int })
-    &&& tick_modify_spec(tl, li, w.tick_current_index as int, w.fee_growth_global_a, w.fee_growth_global_b, u.reward_infos, delta, false, Ok(u.tick_lower_update))
-    &&& tick_modify_spec(tu, ui, w.tick_current_index as int, w.fee_growth_global_a, w.fee_growth_global_b, u.reward_infos, delta, true, Ok(u.tick_upper_update))
-    &&& position_modify_spec(p, delta,
+    &&& ts >= w.reward_last_updated_timestamp as int
+    &&& (forall|k: int| 0 <= k < 3 ==> #[trigger] growth(k) == next_growth(w, ts, k))
+    &&& whirlpool_liquidity as int == (if p.tick_lower_index <= w.tick_current_index < p.tick_upper_index { w.liquidity as int + delta } else { w.liquidity as int })
+    &&& tick_modify_err(tl, delta, false) is None && tick_modify_ok(tl, li, w.tick_current_index as int, w.fee_growth_global_a, w.fee_growth_global_b, |k: int| next_growth(w, ts, k), delta, false, tick_lower_update)
+    &&& tick_modify_err(tu, delta, true) is None && tick_modify_ok(tu, ui, w.tick_current_index as int, w.fee_growth_global_a, w.fee_growth_global_b, |k: int| next_growth(w, ts, k), delta, true, tick_upper_update)
+    &&& position_modify_err(p, delta) is None && position_modify_ok(p, delta,
             growth_inside(w.tick_current_index as int, tl.initialized, tl.fee_growth_outside_a, li, tu.initialized, tu.fee_growth_outside_a, ui, w.fee_growth_global_a),
             growth_inside(w.tick_current_index as int, tl.initialized, tl.fee_growth_outside_b, li, tu.initialized, tu.fee_growth_outside_b, ui, w.fee_growth_global_b),
-            [reward_inside_k(w, tl, tu, li, ui, u.reward_infos, 0), reward_inside_k(w, tl, tu, li, ui, u.reward_infos, 1), reward_inside_k(w, tl, tu, li, ui, u.reward_infos, 2)],
-            Ok(u.position_update))
-    &&& modify_tick_array_spec(p.liquidity, u.position_update.liquidity, var_l, tl.initialized, u.tick_lower_update.initialized, u.tick_array_lower_update)
-    &&& modify_tick_array_spec(p.liquidity, u.position_update.liquidity, var_u, tu.initialized, u.tick_upper_update.initialized, u.tick_array_upper_update)
+            [reward_inside_k(w, tl, tu, li, ui, ts, 0), reward_inside_k(w, tl, tu, li, ui, ts, 1), reward_inside_k(w, tl, tu, li, ui, ts, 2)],
+            position_update)
+    &&& modify_tick_array_spec(p.liquidity, position_update.liquidity, var_l, tl.initialized, tick_lower_update.initialized, tick_array_lower_update)
+    &&& modify_tick_array_spec(p.liquidity, position_update.liquidity, var_u, tu.initialized, tick_upper_update.initialized, tick_array_upper_update)
+}
+pub open spec fn modify_liquidity_spec(w: Whirlpool, p: Position, tl: Tick, tu: Tick, li: int, ui: int, var_l: bool, var_u: bool, delta: int, ts: int, u: ModifyLiquidityUpdate) -> bool {
+    &&& modify_liquidity_core(w, p, tl, tu, li, ui, var_l, var_u, delta, ts, u.whirlpool_liquidity, u.tick_lower_update, u.tick_upper_update,
+            |k: int| u.reward_infos[k].growth_global_x64, u.position_update, u.tick_array_lower_update, u.tick_array_upper_update)
+    // besides the growth accumulator the reward infos are carried over unchanged
+    &&& (forall|k: int| 0 <= k < 3 ==> #[trigger] u.reward_infos[k] == (WhirlpoolRewardInfo { growth_global_x64: next_growth(w, ts, k), ..w.reward_infos[k] }))
 }
 //@ fn manager/liquidity_manager.rs _calculate_modify_liquidity -> r
     ensures
@@ -83,9 +93,10 @@ pub open spec fn modify_liquidity_spec(w: Whirlpool, p: Position, tl: Tick, tu: 
             tick_array_lower_variable_size, tick_array_upper_variable_size, liquidity_delta as int, timestamp as int, u),
 //@ inject before /let position_update = next_position_modify_liquidity_update/
     proof {
-        let rg = [reward_inside_k(*whirlpool, *tick_lower, *tick_upper, tick_lower_index as int, tick_upper_index as int, next_reward_infos, 0),
-                  reward_inside_k(*whirlpool, *tick_lower, *tick_upper, tick_lower_index as int, tick_upper_index as int, next_reward_infos, 1),
-                  reward_inside_k(*whirlpool, *tick_lower, *tick_upper, tick_lower_index as int, tick_upper_index as int, next_reward_infos, 2)];
+        let rg = [reward_inside_k(*whirlpool, *tick_lower, *tick_upper, tick_lower_index as int, tick_upper_index as int, timestamp as int, 0),
+                  reward_inside_k(*whirlpool, *tick_lower, *tick_upper, tick_lower_index as int, tick_upper_index as int, timestamp as int, 1),
+                  reward_inside_k(*whirlpool, *tick_lower, *tick_upper, tick_lower_index as int, tick_upper_index as int, timestamp as int, 2)];
+        assert(forall|k: int| 0 <= k < 3 ==> (#[trigger] next_reward_infos[k]).growth_global_x64 == next_growth(*whirlpool, timestamp as int, k) && next_reward_infos[k].is_init() == whirlpool.reward_infos[k].is_init());
         assert(rg[0] == reward_growths_inside[0] && rg[1] == reward_growths_inside[1] && rg[2] == reward_growths_inside[2]);
         assert(rg =~= reward_growths_inside);
     }
